@@ -126,7 +126,7 @@ def check(run):
                     lines.append((cid, "imin %d 0 %s" % (root, sqlcmp.show_key(bad))))
                     meta[cid] = (db, None, "ScanMin with flags that are not the index's")
                     stats["mismatched_flags"] += 1
-    res, impl, model = ops.run_cmds("c13-cuts", lines, timeout=1500)
+    res, impl, model = ops.run_cmds("c13-cuts", lines, timeout=1500, shards=8)
     for cid, cmd in lines:
         if cid not in meta:
             continue
